@@ -350,13 +350,15 @@ def gen_constuse_design(rng):
         f"    s.i = InPort({iw}); s.a = InPort({W2}); s.o1 = OutPort(1); s.o2 = OutPort({W2}); s.o3 = OutPort({W2}); s.o4 = OutPort({A + B}); s.w = Wire({A + B})"]
   if how == "closure": L.append(f"    K = mk_bits({W})({v})")
   if how == "attr": L.append(f"    s.K = mk_bits({W})({v})")
-  L += [f"    d = CUP({va}, {vb})", "    @update", "    def up():"]
+  L += [f"    d = CUP({va}, {vb})", f"    s.q = InPort(CUP); s.o5 = OutPort({B})", "    @update", "    def up():"]
+  # a struct-typed temporary whose field is read ( t = s.q; .. t.y .. )
+  stt = rng.choice([["s.o5 @= s.q.y"], ["t = s.q", "s.o5 @= t.y"], ["t = s.q", f"s.o5 @= t.y + {rng.randrange(1, 1 << B)}"]])
   body = [f"s.o1 @= {K}[s.i]", f"s.o2 @= sext({K}, {W2}) + s.a", f"s.o3 @= sext({K}[s.i], {W2}) ^ s.a", "s.w @= d", "s.o4 @= s.w"]
   keep = [b for b in body[:3] if rng.random() < 0.7] or body[:1]
   keep += body[3:] if rng.random() < 0.6 else ["s.w @= 0", "s.o4 @= s.w"]
   for nm_, dflt in (("o1", "0"), ("o2", "s.a"), ("o3", "s.a")):
     if not any(b.startswith(f"s.{nm_} ") for b in keep): keep.append(f"s.{nm_} @= {dflt}")
-  L += ["      " + b for b in keep]
+  L += ["      " + b for b in keep + stt]
   return "\n".join(L) + "\n", how
 
 
